@@ -6,8 +6,12 @@ PROFILES = [(3, {"script_prob": 0.9, "dropdisp_prob": 0.1, "n_cmds": (12, 40)}),
 
 
 def main(tier, seed):
-    return p_seqprops.run("C06", tier, seed, PROFILES, props=PROPS)
+    import p_rawsrc
+    return p_seqprops.run("C06", tier, seed, PROFILES, props=PROPS, extra_front=p_rawsrc.extra_front_for("C06"))
 
 
 def replay(path):
+    if "rawsrc case" in open(path).read():
+        import p_rawsrc
+        return p_rawsrc.replay(path)
     return p_seqprops.replay("C06", path, props=PROPS)
